@@ -49,7 +49,7 @@ reg(Prop('C02', lambda r, i, t: pc.gen_item_C02(r, i, t, 'C02'), pc.eval_C02, 60
 reg(Prop('C03', lambda r, i, t: pc.gen_item(r, i, t, 'C03'), pc.eval_C03, 6000, 400000, RULE_COMPUTE, ASSUME_COMPUTE,
          ['C03_all_connected', 'C03_roots_closed', 'C03_contour', 'C03_branch_own_le_sub', 'C03_trunk_eq_components', 'C03_compute_all_connected']))
 reg(Prop('C04', lambda r, i, t: pc.gen_item(r, i, t, 'C04'), pc.eval_C04, 8000, 600000, RULE_COMPUTE, ASSUME_COMPUTE,
-         ['C04_new_leaf', 'C04_join_one', 'C04_insignificant_iff', 'C04_branch', 'C04_one_remains', 'C04_none_remains', 'C04_unique_of_distinct', 'C04_minDelta_merge', 'C04_minNpix', 'C04_allTrue', 'C04_seeds_exact', 'C04_sorted_check_sound', 'C04_nodup_check_sound', 'C04_cover_check_sound', 'C04_strict_of_distinct', 'C04_label_mechanism_refines', 'C04_adjacent_by_labels', 'C04_ancestor_is_root']))
+         ['C04_new_leaf', 'C04_join_one', 'C04_insignificant_iff', 'C04_branch', 'C04_one_remains', 'C04_none_remains', 'C04_unique_of_distinct', 'C04_minDelta_merge', 'C04_minNpix', 'C04_allTrue', 'C04_seeds_exact', 'C04_sorted_check_sound', 'C04_nodup_check_sound', 'C04_cover_check_sound', 'C04_strict_of_distinct', 'C04_label_mechanism_refines', 'C04_adjacent_by_labels', 'C04_ancestor_is_root', 'C04_objects_refine_construction', 'C04_ancestor_sound_in_compute']))
 reg(Prop('C05', lambda r, i, t: pc.gen_item(r, i, t, 'C05'), pc.eval_C05, 6000, 400000, RULE_COMPUTE, ASSUME_COMPUTE,
          ['C05_parented_leaf_significant', 'C05_meeting_pixel', 'C05_builtin', 'C05_orphan_leaf', 'C05_leaf_peak_regmax', 'C05_leaves_distinct_maxima', 'C05_regmax_has_leaf']))
 reg(Prop('C06', lambda r, i, t: pc.gen_item_C06(r, i, t, 'C06'), pc.eval_C06, 5000, 250000, RULE_COMPUTE, ASSUME_COMPUTE,
@@ -89,7 +89,7 @@ RULE_HISTORY = ("histories = a seeded structured array (as for C01) computed, th
                 "(array, parameters, operation list)")
 reg(Prop('C07', ph.gen_item_C07, ph.eval_C07, 5000, 250000, RULE_HISTORY, ASSUME_COMPUTE,
          ['C07_every_leaf_passes', 'C07_regions_preserved', 'C07_pixels_preserved', 'C07_trunk_step', 'C07_arity_preserved',
-          'C07_ids_preserved', 'C07_nearest_surviving_ancestor', 'C07_own_transfer', 'C07_idempotent', 'C07_noop', 'C07_params_monotone', 'C07_params_zero_inherits']))
+          'C07_ids_preserved', 'C07_nearest_surviving_ancestor', 'C07_own_transfer', 'C07_idempotent', 'C07_noop', 'C07_params_monotone', 'C07_params_zero_inherits', 'C07_heap_loop_refines', 'C07_heap_prune_is_prune']))
 reg(Prop('C08', ph.gen_item_C08, ph.eval_C08, 5000, 300000,
          "pairs (compute loosely then prune strictly) vs (compute strictly) on the same seeded array; modes: min_npix only, "
          "min_delta only, both; non-trivial = the prune removed a structure", ASSUME_COMPUTE, ['C08_counterexample_criterion', 'C08_ruleOrig_agrees_on_witness', 'C08_ruleOrig_eq_computeTime', 'C08_npix', 'C08_full', 'C08_npix_same_test', 'C08_zero_inherits']))
